@@ -83,7 +83,12 @@ func iterStream(cfg *Config) *hx.Stats {
 		iterNestedReadOnly(cfg, st, w, rng, nProg+nNested+p)
 		st.Programs++
 	}
-	iterCheckRequired(cfg, st, append(append([]string{}, iterRequired...), iterNestRequired...))
+	// ... the same over wrapped children and over maps whose keys are containers (iternestx.go)
+	for p := 0; p < nRO && len(st.Violations) <= 20 && st.HarnessErr == ""; p++ {
+		iterNestedExotic(cfg, st, w, rng, nProg+nNested+nRO+p)
+		st.Programs++
+	}
+	iterCheckRequired(cfg, st, append(append(append([]string{}, iterRequired...), iterNestRequired...), iterNestXRequired...))
 	st.TraceLines = w.Lines
 	st.Distinct = iterDistinct
 	atree.VerifSetThreshold(1024)
@@ -732,6 +737,15 @@ func (e *itArr) itFlavours() {
 			}
 			if k := hx.ErrKind(err); k != want {
 				e.violation("C13", fmt.Sprintf("%s: invalid range [%d,%d) of %d rejected with %s, want %s", name, lo, hi, n, k, want))
+			} else {
+				// the refusal names the range that was asked for (and the bounds it violates)
+				d := hx.ErrNames(err, "InvalidSliceIndex", lo, hi)
+				if want == "SliceOutOfBounds:User" {
+					d = hx.ErrNames(err, "SliceOutOfBounds", lo, hi, 0, n)
+				}
+				if d != "" {
+					e.violation("C13", fmt.Sprintf("%s: invalid range [%d,%d) of %d: %s", name, lo, hi, n, d))
+				}
 			}
 			if len(got) != 0 {
 				e.violation("C13", fmt.Sprintf("%s: rejected range still yielded %d elements", name, len(got)))
